@@ -1,8 +1,15 @@
 """C05 — parallel tempering keeps every replica at its own thermal distribution (partial by nature:
 invariance is proved, ergodicity is not a theorem)."""
 from checks import pure_fns
-LEAN_TARGETS = ["QmcProps.C05", "drv_c05"]
-BINS = ["c05"]
+LEAN_TARGETS = ["QmcProps.C05", "drv_c05", "QmcProps.C02", "drv_c02"]
+BINS = ["c05", "c02"]
+
+# C05's per-replica statement rests on the single-replica kernels. The ladders here contain heat-bath replicas (Ising and
+# generic), so the heat-bath kernel's theorems (C02) are re-audited and C02's bisection / sweep modes are re-run by this check.
+HEATBATH_KERNEL_THEOREMS = [
+    "Qmc.C02.heatbath_ratio_real_table", "Qmc.C02.heatbath_detailed_balance", "Qmc.C02.real_table_valid",
+    "Qmc.C02.table_valid_generic", "Qmc.C02.table_used_generic",
+]
 
 THEOREMS = [
     "swap_reversible",
@@ -26,7 +33,7 @@ RULE = ("histories: ladders of 2..8 real replicas (Ising: beta / J / Gamma / h /
         "tempering_step() at the C17 cadence with the same container words (final ladder, returned samples and energies, "
         "total_swaps, container-RNG consumption must agree); every tempering step of the manual history is a C10 case "
         "(after-state, decision log, counters; every second one with all swap probabilities and the order draw bisected) "
-        "and a rayon-step case. gmixed: admission of generic replicas (all equal / scaled magnitudes with the same zero pattern / one term changed / sub-EPSILON control; also through into_qmc of Ising samplers with different couplings): a replica whose Hamiltonian differs from its predecessor must be refused by add_qmc_stepper and can_swap_graphs; admitted ladders are stepped and judged by the swap-probability oracle. grow: ladders grown between tempering steps (add_qmc_stepper / tempering_step / parallel_tempering_step interleaved, 0..8 replicas), every step a full C10 case. Non-trivial = history with at least one tempering step / step with a rejected or evaluated "
+        "and a rayon-step case; at the end of every history the ladder is snapshotted through (SerializeTemperingContainer, rng, rngs) -> JSON -> into_tempering_container_from_vec and the restored ladder must stay in lock-step with an in-memory twin (states, operator strings, cutoffs, non-moving fields, total_swaps after every round of time steps and tempering step; samples, energies and RNG consumption of timesteps_sample). heatbath-*: C02 harness modes pairs / sweeps / prob (bisected slot probabilities of the heat-bath update). gmixed: admission of generic replicas (all equal / scaled magnitudes with the same zero pattern / one term changed / sub-EPSILON control; also through into_qmc of Ising samplers with different couplings): a replica whose Hamiltonian differs from its predecessor must be refused by add_qmc_stepper and can_swap_graphs; admitted ladders are stepped and judged by the swap-probability oracle. grow: ladders grown between tempering steps (add_qmc_stepper / tempering_step / parallel_tempering_step interleaved, 0..8 replicas), every step a full C10 case. Non-trivial = history with at least one tempering step / step with a rejected or evaluated "
         "decision; distinct = distinct full case text.")
 
 
@@ -34,6 +41,7 @@ def main(ck):
     pure_fns.run(ck)   # source->Lean translation of pure functions, re-proved equal to the hand model
     if ck.lake_build(LEAN_TARGETS):
         ck.audit("QmcProps.C05", ["Qmc.C05." + t for t in THEOREMS])
+        ck.audit("QmcProps.C02", HEATBATH_KERNEL_THEOREMS)
     if ck.cargo_build(BINS):
         cases = ck.harness("c05", ["histories"])
         ck.correspond("histories", "drv_c05", cases)
@@ -41,6 +49,12 @@ def main(ck):
         ck.correspond("grow", "drv_c05", cases)
         cases = ck.harness("c05", ["gmixed"])
         ck.correspond("gmixed", "drv_c05", cases)
+        # the heat-bath diagonal update of the replicas (same harness modes as C02): stored tables stay valid under swaps,
+        # sweeps replayed exactly, every slot's insert / accept / remove probability bisected (Ising and generic samplers,
+        # generic diagonal bonds with several different non-zero weights)
+        ck.correspond("heatbath-table-invariant-under-swaps", "drv_c02", ck.harness("c02", ["pairs"]))
+        ck.correspond("heatbath-sampler-sweeps", "drv_c02", ck.harness("c02", ["sweeps"]))
+        ck.correspond("heatbath-sampler-probabilities", "drv_c02", ck.harness("c02", ["prob"]))
         ck.extra_trusted.append("Spy delegation wrapper in harness/src/bin/c10.rs (each tempering-step case is re-run on an unwrapped container and must end in the same state)")
         ck.extra_trusted.append("rayon scheduling / Rust aliasing rules for par_iter_mut (serial = parallel is observed on the same words, not proved)")
         ck.assumptions.append("each replica's own time-step kernel leaves its own SSE weight W_i invariant (C01-C04, C08, C09); strings legal (C07); beta > 0")
